@@ -151,6 +151,20 @@ class History:
                                      'duplicate' if dup else 'not-served'),
                                  res)
             ctx.count('refused_unserved_or_duplicate')
+            # a refused request retains no membership anywhere: every member
+            # of every room of the manager is a session that was accepted and
+            # has not ended
+            live = set(self.conn.values())
+            for ns2, table in self.r.sio.manager.rooms.items():
+                for room, members in table.items():
+                    ghosts = [m for m in members if m not in live]
+                    if ghosts:
+                        return self.fail(
+                            'after a refused (%s) CONNECT the room %r of %r '
+                            'holds %r, which is not a connected session' % (
+                                'duplicate' if dup else 'not-served', room,
+                                ns2, ghosts), res)
+            ctx.count('room_tables_scanned_after_refusal')
             ctx.case((self.kind, 'dup' if dup else 'unserved', self.nopt,
                       self.cfg['always_connect']), {'op': op, 'dup': dup})
             if dup:
